@@ -5,9 +5,11 @@ import (
 	"crypto/rand"
 	"crypto/sha512"
 	"encoding/binary"
+	"encoding/json"
 	"fmt"
 	"math/big"
 	"os"
+	"path/filepath"
 	"runtime"
 
 	"github.com/cloudflare/circl/oprf"
@@ -436,6 +438,9 @@ func runC03(c *core.Ctx) {
 			}
 		}
 	}
+	// the honest costs themselves against a committed baseline measured on the pinned tree (the bounds above are relative
+	// to the tree under test, so a change that makes the HONEST path allocate out of proportion would raise them with it)
+	w.checkBaseline()
 	// slope: bytes allocated per input byte on the honest (accepting, hence most
 	// expensive) paths, times 8; an evaluation of n requests legitimately costs n
 	// times one evaluation.
@@ -953,4 +958,41 @@ func (w *c03World) build() {
 
 	// keep what argTargets needs
 	w.arg = &c03Args{att: att, attCache: attCache, req3: st3.Request(), blind: blind, clientKey: st3.ClientKey(), brk: brk3, iss1: iss1, iss5: iss5, tok1: tok1, tok5: tok5, nameKeyEnc: iss3.NameKey().Marshal()}
+}
+
+// checkBaseline compares each target's honest allocation with fixtures/c03-honest-alloc.json (written only by an
+// explicit run with VERIF_C03_WRITE_BASELINE=1, never by a check).
+func (w *c03World) checkBaseline() {
+	c := w.c
+	path := filepath.Join(core.VerifDir(), "fixtures", "c03-honest-alloc.json")
+	if os.Getenv("VERIF_C03_WRITE_BASELINE") != "" {
+		if c.Shard == 0 {
+			j, _ := json.MarshalIndent(w.honestAlloc, "", " ")
+			os.WriteFile(path, j, 0o644)
+		}
+		return
+	}
+	base := map[string]uint64{}
+	b, err := os.ReadFile(path)
+	if err != nil || json.Unmarshal(b, &base) != nil {
+		c.Class("info_no_allocation_baseline")
+		return
+	}
+	if !c.Next() {
+		return
+	}
+	n := 0
+	for name, now := range w.honestAlloc {
+		was, ok := base[name]
+		if !ok {
+			continue
+		}
+		n++
+		c.Eval(1)
+		if now > 16*was+(64<<10) {
+			c.Violation("honest-cost-out-of-proportion:"+name, fmt.Sprintf("%s allocates %d bytes for its honest %d-byte input; on the pinned tree it allocated %d (bound: 16x + 64 KiB)", name, now, w.honestLen[name], was),
+				map[string]any{"target": name, "allocated": now, "baseline": was, "input_len": w.honestLen[name]})
+		}
+	}
+	c.ClassN("honest_costs_within_baseline", int64(n))
 }
